@@ -15,7 +15,10 @@ if caught == "yes":
     for l in open(log):
         if l.startswith("VIOLATION") and "replay=" in l:
             rp = l.split("replay=")[1].split()[0]
-            if os.path.exists(rp):
+            # manual (enumerated) sections are re-enumerated on every run, and replays of regression
+            # cases are already regression cases
+            manual = any(f"-{m}-" in os.path.basename(rp) for m in ("goldens", "golden_mutations", "stress", "prefixes", "enum_single_fault"))
+            if os.path.exists(rp) and not manual and "/regress/" not in rp:
                 tgt = f"/verif/regress/{pid}/seeded-{name}-{os.path.basename(rp)}"
                 shutil.copy(rp, tgt); regress.append(tgt)
 meta = {
